@@ -29,6 +29,8 @@ func TestDrive(t *testing.T) {
 			DriveRL(t, s, tw)
 		case "PFM":
 			DrivePFM(t, s, tw)
+		case "DENOM":
+			DriveDenom(t, s, tw)
 		default:
 			t.Fatalf("unknown schedule kind %q", s.Kind)
 		}
